@@ -149,7 +149,13 @@ def iter_items(ex, ctx, st, it):
         tgt = ex.load(st, it)
         if tgt[0] == 'agg' and tgt[1][0] == 'array':
             return slice_elems(ex, st, it), st   # `for x in &array` / `.zip(&array)`
-        it = tgt
+        # an iterator consumed through `&mut` (by_ref, any/all/find/position on a named iterator): how much of it is
+        # left afterwards depends on the consumer; consumers that know store the exact remainder themselves, for the
+        # others the cell is poisoned so that a later use is refused instead of silently seeing the old position
+        items, st = iter_items(ex, ctx, st, tgt)
+        if tgt[0] == 'agg':
+            ex.store(st, it, m_iter('Consumed'))
+        return items, st
     if it[0] != 'agg':
         raise Uncertified("iteration over %s" % it[0])
     k = it[1]
@@ -157,13 +163,19 @@ def iter_items(ex, ctx, st, it):
         return list(it[2]), st                   # an array passed where IntoIterator is expected
     if k[0] == 'model':
         name = k[1]
+        if name == 'Consumed':
+            raise Uncertified("an iterator is used again after being partly consumed through `&mut` (by_ref / a short-circuiting consumer); its position is not tracked")
         if name == 'SliceIter':
             elems, pos = it[2]
+            if pos[0] != 'c':
+                raise Uncertified("iterator with symbolic position")
             return list(elems[2][pos[1]:]), st
         if name == 'ArrayIter':
             arr, pos = it[2]
             if arr[0] != 'agg':
                 raise Uncertified("array iterator over %s" % arr[0])
+            if pos[0] != 'c':
+                raise Uncertified("iterator with symbolic position")
             return list(arr[2][pos[1]:]), st
         if name == 'Chars' and it[2][0][0] == 'c':
             text = it[2][0][1]
@@ -229,7 +241,10 @@ def iter_items_cond(ex, ctx, st, it):
     """Like iter_items, but also for sources whose length is symbolic (tokens of a string, bounded by
     ex.max_tokens): -> ([(presence condition, item)], state).  Presence is prefix-closed."""
     if it[0] == 'ref':
+        ref_ = it
         it = ex.load(st, it)
+        if it[0] == 'agg' and it[1][0] != 'array':
+            ex.store(st, ref_, m_iter('Consumed'))
     if it[0] == 'agg' and it[1][0] == 'model':
         nm = it[1][1]
         if nm in ('SplitWs', 'SplitAsciiWs'):
@@ -263,6 +278,85 @@ def iter_items_cond(ex, ctx, st, it):
             return out, st
     items, st = iter_items(ex, ctx, st, it)
     return [(TRUE, x) for x in items], st
+
+
+def pos_consts(pos):
+    """the constant leaves of a position (an ite tree of usize constants), or None"""
+    out, stack, seen = set(), [pos], set()
+    while stack:
+        x = stack.pop()
+        if id(x) in seen:
+            continue
+        seen.add(id(x))
+        if x[0] == 'ite':
+            stack.append(x[2]); stack.append(x[3])
+        elif x[0] == 'c':
+            out.add(x[1])
+        else:
+            return None
+    return out
+
+
+def map_ite_memo(x, f, memo=None):
+    memo = {} if memo is None else memo
+    r = memo.get(id(x))
+    if r is not None:
+        return r
+    if x[0] == 'ite':
+        r = mk_ite(x[1], map_ite_memo(x[2], f, memo), map_ite_memo(x[3], f, memo))
+    else:
+        r = f(x)
+    memo[id(x)] = r
+    return r
+
+
+def seq_iter(ex, st, itref):
+    """(kind, seq, pos, positions) when itref points at a slice/array iterator whose position is a constant or an ite
+    tree of constants; None otherwise"""
+    if itref[0] != 'ref':
+        return None
+    it = ex.load(st, itref)
+    if it[0] == 'agg' and it[1][0] == 'model' and it[1][1] in ('SliceIter', 'ArrayIter'):
+        seq, pos = it[2]
+        if seq[0] != 'agg':
+            return None
+        pc_ = pos_consts(pos)
+        if pc_:
+            return it[1], seq, pos, pc_
+    return None
+
+
+def short_circuit(ex, ctx, st, itref, clos, stop_when, on_stop, on_end, by_ref_item=False):
+    """Model of the short-circuiting consumers (any, all, find, position) on a slice/array iterator held behind
+    `&mut`: the closure runs on the items from the current position on, the consumer stops after the first item
+    whose closure result equals stop_when, and the iterator is left just behind that item (exhausted if none).
+    on_stop(i, item, k) / on_end() build the result (i = absolute index, k = index relative to the start).
+    Returns None when the iterator is not of that kind."""
+    si = seq_iter(ex, st, itref)
+    if si is None:
+        return None
+    kind, seq, pos, consts = si
+    n = len(seq[2])
+    lo = min(min(consts), n)
+    rs = {}
+    for i in range(lo, n):
+        x = seq[2][i]
+        arg = ex.new_tmp(st, x) if by_ref_item else x
+        r, st = call_closure(ex, ctx, st, clos, [arg])
+        rs[i] = r if stop_when else mk_not(r)
+
+    def from_pos(p):
+        p0 = min(p[1], n)
+        res, np_ = on_end(), C(n, 'usize')
+        for i in range(n - 1, p0 - 1, -1):
+            res = mk_ite(rs[i], on_stop(i, seq[2][i], i - p0), res)
+            np_ = mk_ite(rs[i], C(i + 1, 'usize'), np_)
+        return res, np_
+    m1, m2 = {}, {}
+    res = map_ite_memo(pos, lambda p: from_pos(p)[0], m1)
+    newpos = map_ite_memo(pos, lambda p: from_pos(p)[1], m2)
+    ex.store(st, itref, mk('agg', kind, (seq, newpos)))
+    return res, st
 
 
 def fold_bool(ex, ctx, st, items, clos, any_mode):
@@ -523,6 +617,10 @@ def apply(ex, ctx, st, f, args, dest_ty, term):
     if dpath == 'core::iter::IntoIterator::into_iter' and path == '<I as core::iter::IntoIterator>::into_iter':
         return args[0], st
     if dpath == 'core::clone::Clone::clone' and (path.startswith('core::clone::impls::') or path.startswith('core::array::')):
+        return ex.load(st, args[0]), st
+    if dpath == 'core::clone::Clone::clone' and path.startswith('<core::') and path.endswith(' as core::clone::Clone>::clone'):
+        # core's own value types (iterators, Option, ranges, Reverse, ...): values of the engine are immutable, so a
+        # clone is the value itself (shared references inside it stay the same references, as in Rust)
         return ex.load(st, args[0]), st
     if dpath == 'core::default::Default::default' and not f.get('resolved_local'):
         if dest_ty is None:
@@ -975,10 +1073,15 @@ def apply(ex, ctx, st, f, args, dest_ty, term):
         k = it[1]
         if k[0] == 'model' and k[1] in ('SliceIter', 'ArrayIter'):
             seq, pos = it[2]
-            if pos[0] != 'c':
-                raise Uncertified("iterator with symbolic position")
             if seq[0] != 'agg':
                 raise Uncertified("iterator over %s" % seq[0])
+            if pos[0] != 'c':
+                if not pos_consts(pos):
+                    raise Uncertified("iterator with symbolic position")
+                n_ = len(seq[2])
+                res = map_ite_memo(pos, lambda p: option_some(seq[2][p[1]]) if p[1] < n_ else OPTION_NONE)
+                ex.store(st, itref, mk('agg', k, (seq, map_ite_memo(pos, lambda p: C(min(p[1] + 1, n_), 'usize')))))
+                return res, st
             if pos[1] < len(seq[2]):
                 ex.store(st, itref, mk('agg', k, (seq, C(pos[1] + 1, 'usize'))))
                 return option_some(seq[2][pos[1]]), st
@@ -1022,6 +1125,10 @@ def apply(ex, ctx, st, f, args, dest_ty, term):
             return OPTION_NONE, st
         raise Uncertified("next() on %s" % (k,))
     if dpath in ('core::iter::Iterator::any', 'core::iter::Iterator::all'):
+        is_any = dpath.endswith('any')
+        sc = short_circuit(ex, ctx, st, args[0], args[1], is_any, lambda i, x, k_: (TRUE if is_any else FALSE), lambda: (FALSE if is_any else TRUE))
+        if sc is not None:
+            return sc
         items, st = iter_items(ex, ctx, st, args[0])
         return fold_bool(ex, ctx, st, items, args[1], dpath.endswith('any'))
     if dpath == 'core::iter::Iterator::fold':
@@ -1050,6 +1157,9 @@ def apply(ex, ctx, st, f, args, dest_ty, term):
             res = gmap(ex, res, lambda l, x=x: stepf(l, x))
         return res, st
     if dpath == 'core::iter::Iterator::find':
+        sc = short_circuit(ex, ctx, st, args[0], args[1], True, lambda i, x, k_: option_some(x), lambda: OPTION_NONE, by_ref_item=True)
+        if sc is not None:
+            return sc
         items, st = iter_items(ex, ctx, st, args[0])
         res = OPTION_NONE
         for x in reversed(items):
@@ -1144,6 +1254,9 @@ def apply(ex, ctx, st, f, args, dest_ty, term):
     if dpath == 'core::iter::Iterator::zip':
         return m_iter('Zip', args[0], args[1]), st
     if dpath == 'core::iter::Iterator::position':
+        sc = short_circuit(ex, ctx, st, args[0], args[1], True, lambda i, x, k_: option_some(C(k_, 'usize')), lambda: OPTION_NONE)
+        if sc is not None:
+            return sc
         items, st = iter_items(ex, ctx, st, args[0])
         res = OPTION_NONE
         for i in range(len(items) - 1, -1, -1):
